@@ -12,16 +12,22 @@ Definition mk_oracle (rej : list cid) (undel : list nat) : oracle :=
      deletable := fun s => negb (existsb (Nat.eqb (s_n s)) undel) |}.
 
 (** what was observed of one event *)
-Record ostep := { o_calls : list pcall; o_err : bool; o_known : list (option cid) }.
+(** [o_err] (the error the handler returned: it is only logged by the callers) is
+    recorded but not compared — the property does not talk about it; [o_known] are the
+    "known content hashes" the property's record names as its state; [o_panic]: the
+    handler panicked (recovered by the driver) — the models never do. *)
+Record ostep := { o_calls : list pcall; o_err : bool; o_known : list (option cid); o_panic : bool }.
 
 Definition ostep_eqb (a b : ostep) : bool :=
-  list_eqb pcall_eqb (o_calls a) (o_calls b) && Bool.eqb (o_err a) (o_err b) &&
-  list_eqb (option_eqb Nat.eqb) (o_known a) (o_known b).
+  list_eqb pcall_eqb (o_calls a) (o_calls b) &&
+  list_eqb (option_eqb Nat.eqb) (o_known a) (o_known b) && Bool.eqb (o_panic a) (o_panic b).
+
+Definition no_panic (l : list ostep) : bool := negb (existsb o_panic l).
 
 Definition snapshot (k : states) (n : nat) : list (option cid) := map k (seq 0 n).
 
 Definition to_ostep (n : nat) (h : hres) : ostep :=
-  {| o_calls := h_calls h; o_err := h_err h; o_known := snapshot (h_st h) n |}.
+  {| o_calls := h_calls h; o_err := h_err h; o_known := snapshot (h_st h) n; o_panic := false |}.
 
 (** ** file system *)
 Record fs_case := {
@@ -35,7 +41,7 @@ Definition check_fs (impl_fixed : bool) (c : fs_case) : verdict :=
   let model := map (to_ostep (fc_n c)) (snd (fs_run O impl_fixed (fc_hist c))) in
   {| v_corr := list_eqb ostep_eqb model (fc_obs c);
      v_prop := negb (is_nil (fc_undel c)) ||
-               (Nat.eqb (length (fc_obs c)) (length (fc_hist c)) &&
+               (no_panic (fc_obs c) && Nat.eqb (length (fc_obs c)) (length (fc_hist c)) &&
                 trace_ok (accepts O) (mk_trace (fs_views (accepts O) (fc_hist c)) (map o_calls (fc_obs c))));
      v_guards := guards [(2%Z, negb impl_fixed && fs_guard_F2 (fc_hist c));
                          (4%Z, negb impl_fixed && fs_guard_F4 (fc_hist c))] |}.
@@ -114,7 +120,7 @@ Definition check_http (c : http_case) : verdict :=
   let model := map (to_ostep (hc_n c)) (snd (http_run O (hc_hist c))) in
   {| v_corr := list_eqb ostep_eqb model (hc_obs c);
      v_prop := negb (is_nil (hc_undel c)) ||
-               (Nat.eqb (length (hc_obs c)) (length (hc_hist c)) &&
+               (no_panic (hc_obs c) && Nat.eqb (length (hc_obs c)) (length (hc_hist c)) &&
                 trace_ok (accepts O) (mk_trace (http_views (hc_hist c)) (map o_calls (hc_obs c))));
      v_guards := [] |}.
 
@@ -134,14 +140,14 @@ Fixpoint blob_steps (O : oracle) (fixed : bool) (nb nk : nat) (s : bstates) (h :
   | bp :: rest =>
     let x := blob_watch O fixed nk (fst bp) (s (fst bp)) (snd bp) in
     let s' := bst_set s (fst bp) (h_st x) in
-    {| o_calls := h_calls x; o_err := h_err x; o_known := bsnapshot s' nb nk |} :: blob_steps O fixed nb nk s' rest
+    {| o_calls := h_calls x; o_err := h_err x; o_known := bsnapshot s' nb nk; o_panic := false |} :: blob_steps O fixed nb nk s' rest
   end.
 
 Definition check_blob (impl_fixed : bool) (c : blob_case) : verdict :=
   let O := mk_oracle (bc_rej c) [] in
   let model := blob_steps O impl_fixed (bc_nb c) (bc_nk c) bst_empty (bc_hist c) in
   {| v_corr := list_eqb ostep_eqb model (bc_obs c);
-     v_prop := Nat.eqb (length (bc_obs c)) (length (bc_hist c)) &&
+     v_prop := no_panic (bc_obs c) && Nat.eqb (length (bc_obs c)) (length (bc_hist c)) &&
                trace_ok (accepts O) (mk_trace (blob_views (bc_nk c) (bc_hist c)) (map o_calls (bc_obs c)));
      v_guards := guards [(1%Z, negb impl_fixed && blob_guard_F1 (bc_nk c) (bc_hist c));
                          (5%Z, blob_guard_F5 (accepts O) (bc_hist c));
@@ -198,7 +204,9 @@ Definition kC := KCreated. Definition kU := KUpdated. Definition kD := KDeleted.
 Definition pc (k : pkind) (pfx : bool) (ns n : nat) (c : option cid) (ok : bool) : pcall :=
   {| p_kind := k; p_src := {| s_blobpfx := pfx; s_ns := ns; s_n := n |}; p_cid := c; p_ok := ok |}.
 Definition os (calls : list pcall) (err : bool) (known : list (option cid)) : ostep :=
-  {| o_calls := calls; o_err := err; o_known := known |}.
+  {| o_calls := calls; o_err := err; o_known := known; o_panic := false |}.
+Definition osx (calls : list pcall) (err : bool) (known : list (option cid)) : ostep :=
+  {| o_calls := calls; o_err := err; o_known := known; o_panic := true |}.
 Definition fsc n rej undel h o := {| fc_n := n; fc_rej := rej; fc_undel := undel; fc_hist := h; fc_obs := o |}.
 Definition yaml := CtYaml. Definition json := CtJson. Definition other := CtOther.
 Definition RH := RHttp. Definition RX := RConnErr. Definition RT := RTimeout. Definition RC := RCanceled.
